@@ -103,12 +103,13 @@ class DelayModel:
             This is the runtime+delay value = essentially the new runtime value
         """
         delay = task_runtime
-        if self.degree.value == 0:
+        if self.degree.value == 0 or task_runtime <= 0:
+            # Nothing to stretch: no delay degree, or a zero-length task
             return delay
         else:
             if default_rng(self.seed).random() < self.prob:
                 rand_var = self._create_random_value_from_runtime(task_runtime, n)
-                delay = int(rand_var)
+                delay = max(task_runtime, int(rand_var))
             return delay
 
     def _create_random_value_from_runtime(self, runtime, n=100):
@@ -132,11 +133,14 @@ class DelayModel:
         if self.dist == "normal":
             s = default_rng(self.seed).normal(mu, sigma, n)
         elif self.dist == "poisson":
-            s = default_rng().poisson(mu, int(runtime / self.degree))
+            s = default_rng(self.seed).poisson(mu, n)
         else:
-            s = default_rng().uniform()
+            s = default_rng(self.seed).uniform(mu - sigma, mu + sigma, n)
 
         var = s[s > mu]
+        if len(var) == 0:
+            # No sample above the mean: the task is not delayed
+            return runtime
         rand_var = var[int(len(var)/2)]
         return rand_var
 
